@@ -211,21 +211,57 @@ fn two_way_cuts(b: &[u8]) -> Vec<Vec<Vec<u8>>> {
     v
 }
 
-fn crash_to_violation(c: &Collector, what: &str, crashes: Vec<crate::isolate::Crash>) {
+/// fork_map for C01: an abnormal worker end (abort, stack overflow, allocation failure,
+/// watchdog expiry = hang) is itself the verdict if it reproduces. The partition is run
+/// again alone in a fresh worker with per-case progress recording; a second abnormal end
+/// becomes a C01 violation naming the case that was running, otherwise it is a machinery error.
+fn fork_map_c01<F: Fn(usize, &Collector)>(c: &Collector, what: &str, n_parts: usize, timeout: Duration, f: F) {
+    let crashes = fork_map(c, n_parts, timeout, &f);
     for cr in crashes {
-        // an abort / hang of a worker is itself the C01 verdict, if it reproduces
-        c.crash(format!("C01 {} worker {} ended abnormally ({}), partition {:?}", what, cr.child, cr.how, cr.last_part));
+        let part = match cr.last_part {
+            Some(p) => p,
+            None => {
+                c.crash(format!("C01 {} worker {} ended abnormally ({}) outside any partition", what, cr.child, cr.how));
+                continue;
+            }
+        };
+        let prog = format!("{}/target/mc-tmp/case-{}-{}", std::env::var("VERIF_DIR").unwrap_or_else(|_| "/verif".into()), std::process::id(), part);
+        let _ = std::fs::create_dir_all(std::path::Path::new(&prog).parent().unwrap());
+        std::env::set_var("VERIF_CASE_PROGRESS", &prog);
+        let scratch = Collector::new("C01", &c.tier);
+        let again = fork_map(&scratch, 1, timeout, |_, cc| f(part, cc));
+        std::env::remove_var("VERIF_CASE_PROGRESS");
+        let case = std::fs::read_to_string(&prog).unwrap_or_default().trim().to_string();
+        let _ = std::fs::remove_file(&prog);
+        if let Some(a) = again.first() {
+            c.violation(Violation {
+                property: "C01".into(),
+                engine: format!("E5.{}", what),
+                sig: format!("worker-abnormal-end|{}", if a.how.contains("timeout") { "hang (watchdog)".to_string() } else { a.how.clone() }),
+                columns: 0,
+                lines: 0,
+                script: vec![],
+                op: None,
+                detail: format!(
+                    "worker process ended abnormally twice ({}; then {}) in {} partition {}; case running at the time: {}",
+                    cr.how, a.how, what, part, case
+                ),
+                extra: json!({"partition": part, "engine_part": what, "case": case, "first": cr.how, "second": a.how}),
+            });
+        } else {
+            c.crash(format!("C01 {} worker {} ended abnormally ({}) in partition {} but the partition ran to completion when repeated alone", what, cr.child, cr.how, part));
+        }
     }
 }
 
 pub fn c01(c: &Collector, g: &mut Guard) {
-    let timeout = Duration::from_secs(if c.thorough() { 3600 } else { 600 });
+    let timeout = Duration::from_secs(if c.thorough() { 3600 } else { 240 });
     let thorough = c.thorough();
     // ---------------------------------------------------------------- (i) E1 words on real screens
     let a = alphabet_a();
     let n0 = if thorough { 3 } else { 2 };
     let geoms_small: Vec<(u32, u32)> = vec![(1, 1), (3, 1), (5, 3)];
-    let crashes = fork_map(c, a.len(), timeout, |part, cc| {
+    fork_map_c01(c, "words", a.len(), timeout, |part, cc| {
         let mut pr = Progress::new();
         let mut outcomes = HashSet::new();
         let mut n = 0u64;
@@ -262,11 +298,45 @@ pub fn c01(c: &Collector, g: &mut Guard) {
         cc.count("word_cases", n);
         cc.outcomes(&outcomes);
     });
-    crash_to_violation(c, "words", crashes);
+    // ---------------------------------------------------------------- (i-b) string-sequence shapes (OSC with and without separator, multi-byte right after the code)
+    let osc_syms: Vec<&str> = vec!["a", ";", "\u{e9}", "\u{30a2}", "\\", "\x1bq", " "];
+    fork_map_c01(c, "osc-shapes", osc_syms.len(), timeout, |part, cc| {
+        let mut pr = Progress::new();
+        let mut outcomes = HashSet::new();
+        let mut n = 0u64;
+        let mut payloads: Vec<String> = vec![String::new(), osc_syms[part].to_string()];
+        for s2 in &osc_syms {
+            payloads.push(format!("{}{}", osc_syms[part], s2));
+            if thorough {
+                for s3 in &osc_syms {
+                    payloads.push(format!("{}{}{}", osc_syms[part], s2, s3));
+                }
+            }
+        }
+        for p in &payloads {
+            for intro in ["\x1b]", "\u{9d}"] {
+                for code in ["0", "2", "\u{e9}", ";", "", "52"] {
+                    for term in ["\x07", "\u{9c}", "\x1b\\", ""] {
+                        let w = format!("{}{}{}{}", intro, code, p, term);
+                        pr.case(|| format!("osc-shape {}", esc(&w)));
+                        char_case(cc, 5, 3, &[w.clone()], true, "E5.osc-shapes", &mut outcomes);
+                        n += 1;
+                        for chunks in two_way_cuts(w.as_bytes()) {
+                            stream_case(cc, 5, 3, &chunks, true, "E5.osc-shapes", &mut outcomes);
+                            n += 1;
+                        }
+                    }
+                }
+            }
+        }
+        cc.add_transitions(n);
+        cc.count("osc_shape_cases", n);
+        cc.outcomes(&outcomes);
+    });
     // ---------------------------------------------------------------- (ii) E3 byte strings, all chunkings
     let b = byte_alphabet();
     let nb = if thorough { 4 } else { 3 };
-    let crashes = fork_map(c, b.len(), timeout, |part, cc| {
+    fork_map_c01(c, "bytes", b.len(), timeout, |part, cc| {
         let mut pr = Progress::new();
         let mut outcomes = HashSet::new();
         let mut n = 0u64;
@@ -317,7 +387,6 @@ pub fn c01(c: &Collector, g: &mut Guard) {
         cc.count("byte_cases", n);
         cc.outcomes(&outcomes);
     });
-    crash_to_violation(c, "bytes", crashes);
     // ---------------------------------------------------------------- (iii-b) macro-words through the byte parser
     let macros = macro_alphabet();
     let extra_macros: Vec<String> = {
@@ -339,7 +408,7 @@ pub fn c01(c: &Collector, g: &mut Guard) {
     c.bound("macro_alphabet_size", json!(extra_macros.len()));
     c.bound("macro_word_length", json!(format!("{} over the full macro alphabet, {} over every 4th symbol", mlen, mlen + 1)));
     let nm = extra_macros.len();
-    let crashes = fork_map(c, nm, timeout, |part, cc| {
+    fork_map_c01(c, "macro", nm, timeout, |part, cc| {
         let mut pr = Progress::new();
         let mut outcomes = HashSet::new();
         let mut n = 0u64;
@@ -377,7 +446,6 @@ pub fn c01(c: &Collector, g: &mut Guard) {
         cc.count("macro_cases", n);
         cc.outcomes(&outcomes);
     });
-    crash_to_violation(c, "macro", crashes);
     // ---------------------------------------------------------------- (iii) API: wide parameter domain, depth 1
     let gs: Vec<(u32, u32)> = if thorough { vec![(1, 1), (2, 1), (1, 2), (3, 2), (5, 3), (80, 24)] } else { vec![(1, 1), (3, 2), (5, 3)] };
     let spec = Spec {
@@ -523,6 +591,7 @@ pub fn c01(c: &Collector, g: &mut Guard) {
     c.sample(json!({"case": "api 3x2", "op": "insert_characters(9999) from a never-written row", "then": ["display()", "draw(x)"]}));
     g.need(c, "word_cases");
     g.need(c, "byte_cases");
+    g.need(c, "osc_shape_cases");
     g.need(c, "macro_cases");
     g.need(c, "wide_param_transitions");
     g.need(c, "resize_transitions");
@@ -576,7 +645,7 @@ fn c01_sessions(c: &Collector, timeout: Duration) {
     }
     let geoms: Vec<(u32, u32)> = vec![(80, 24), (140, 40), (10, 5), (1, 1)];
     let jobs: Vec<(usize, usize)> = (0..names.len()).flat_map(|i| (0..geoms.len()).map(move |g| (i, g))).collect();
-    let crashes = fork_map(c, jobs.len(), timeout, |part, cc| {
+    fork_map_c01(c, "sessions", jobs.len(), timeout, |part, cc| {
         let (si, gi) = jobs[part];
         let d = &datas[si];
         let (cols, lines) = geoms[gi];
@@ -641,5 +710,4 @@ fn c01_sessions(c: &Collector, timeout: Duration) {
         cc.add_transitions(n);
         cc.count("session_cases", n);
     });
-    crash_to_violation(c, "sessions", crashes);
 }
